@@ -144,6 +144,46 @@ class AnnotatedMDP(SpecMDP):
         return DictDistribution({Tagged(_raw(s), None): p for s, p in d.items()})
 
 
+class DSPOverrideMDP(SpecMDP):
+    pass
+
+
+def _dsp_override_class():
+    """a model written by SUBCLASSING the library's deterministic-shortest-path class (nominal dynamics: the most likely
+    successor) and overriding its public next_state_dist / initial_state_dist with the real, stochastic ones"""
+    from msdm.core.mdp.deterministic_shortest_path import DeterministicShortestPathProblem
+
+    class Nominal(DeterministicShortestPathProblem, TabularMarkovDecisionProcess):
+        def next_state(self, s, a):
+            return max(self.sp.P[(s, a)], key=lambda x: x[1])[0]
+
+        def initial_state(self):
+            return max(self.sp.init, key=lambda x: x[1])[0]
+
+    class Slippery(Nominal):
+        __init__ = SpecMDP.__init__
+        next_state_dist = SpecMDP.next_state_dist          # the overrides
+        initial_state_dist = SpecMDP.initial_state_dist
+        reward = SpecMDP.reward
+        actions = SpecMDP.actions
+        is_absorbing = SpecMDP.is_absorbing
+    return Slippery
+
+
+class QuickOverrideMDP(QuickTabularMDP):
+    """a QuickTabularMDP built from PLACEHOLDER functions whose public methods are then overridden in a subclass"""
+    def __init__(self, sp):
+        self.sp = sp
+        QuickTabularMDP.__init__(self, next_state_dist=lambda s, a: DeterministicDistribution(s), reward=0.0,
+                                 actions=lambda s: (), initial_state_dist=DeterministicDistribution(sp.states[0]),
+                                 is_absorbing=lambda s: False, discount_rate=sp.gamma)
+    next_state_dist = SpecMDP.next_state_dist
+    reward = SpecMDP.reward
+    actions = SpecMDP.actions
+    initial_state_dist = SpecMDP.initial_state_dist
+    is_absorbing = SpecMDP.is_absorbing
+
+
 class PersistentActionsMDP(SpecMDP):
     """actions(s) hands out the SAME list object on every call (as QuickMDP(actions=[...]) would)"""
     def __init__(self, sp):
@@ -199,6 +239,10 @@ def build(sp, rep, shuffle_rng=None):
         return quick(sp, explicit=True, shuffle_rng=shuffle_rng)
     if rep == "annotated":
         return AnnotatedMDP(sp)
+    if rep == "dsp_override":
+        return _dsp_override_class()(sp)
+    if rep == "quick_override":
+        return QuickOverrideMDP(sp)
     if rep == "subclass_explicit_states":
         return SpecMDP(sp, explicit="states", shuffle_rng=shuffle_rng)
     raise ValueError(rep)
